@@ -326,7 +326,8 @@ func (e *Engine) globalNonNil() map[string]bool {
 					} else {
 						good = false
 					}
-				case *ssa.MakeInterface, *ssa.MakeMap, *ssa.MakeChan, *ssa.Alloc:
+				case *ssa.MakeInterface, *ssa.MakeMap, *ssa.MakeChan, *ssa.Alloc, *ssa.Global:
+					// (the address of another package-level variable is not nil either)
 				default:
 					good = false
 				}
